@@ -53,8 +53,14 @@ JudgeHold(e) ==
        \o When(~e.allopen, "a sealed message does not open to the message as it was when Seal was called")
        \o When(~e.sealissigmsg, "a sealed message is not Sign(m) || m")
 
+\* "bulk": n further (key, message) pairs reduced to counts
+JudgeBulk(e) ==
+  When(e.signerrs > 0, "Sign returned an error (or panicked) for a message")
+  \o When(e.notverify > 0, "a signature returned by Sign does not verify under the key's public key (bulk run)")
+
 Judge(e) ==
-  IF e.ev = "hold" THEN JudgeHold(e)
+  IF e.ev = "bulk" THEN JudgeBulk(e)
+  ELSE IF e.ev = "hold" THEN JudgeHold(e)
   ELSE IF e.res # "ok" THEN <<"signing failed">>
   ELSE When(~e.verify, "the signature returned by Sign does not verify under the key's public key")
        \o When(e.verifyother, "the signature verifies for a different message")
@@ -67,7 +73,7 @@ Judge(e) ==
        \o When(~e.msgintact, "signing modified the caller's message")
 
 DriftOf(e) ==
-  IF e.ev = "hold" \/ e.res # "ok" THEN <<>>
+  IF e.ev \in {"hold", "bulk"} \/ e.res # "ok" THEN <<>>
   ELSE When(~RunOK(e.iters), "rejection loop of Sign is not a run of DilithiumSign.tla for the logged norms")
        \o When(e.sealiters # e.iters, "Seal and Sign took different runs of the rejection loop for the same message")
 
